@@ -1143,6 +1143,8 @@ class Interp:
             return a == b
         if isinstance(a, Foreign) or isinstance(b, Foreign):
             return a is b
+        if isinstance(a, _CALLABLES) or isinstance(b, _CALLABLES):
+            return a is b         # function / bound-method objects compare by identity (never equal to a str or a category)
         sa, sb = self.sort_name(a), self.sort_name(b)
         S = {'str': 'String', 'int': 'Int', 'bool': 'Bool', 'NoneType': 'None'}
         sa, sb = S.get(sa, sa), S.get(sb, sb)
@@ -1340,7 +1342,9 @@ class Interp:
         sn = self.sort_name(o)
         base = 'Category' if sn == 'Cat' else 'Feature'
         vc = self.virtual.get((base, name))
-        if vc is not None and not (self.target_contract is vc and False):
+        if vc is not None:
+            if getattr(vc, 'is_property', False):
+                return self.use_contract(vc, [o], {}, node)
             return ContractMethod(vc, o)
         ctors = w.cat_ctors if sn == 'Cat' else w.feat_ctors
         chosen = None
@@ -1869,6 +1873,7 @@ class Interp:
         return Foreign()
 
 
+_CALLABLES = (FuncVal, BoundMethod, ContractMethod, ClassVal)
 BUILTIN_EXC = set(EXC_PARENTS) | {'BaseException'}
 INTERP_BUILTINS = {'isinstance', 'len', 'reversed', 'zip', 'enumerate', 'range', 'all', 'any', 'max', 'min', 'sorted', 'repr', 'print', 'id', 'hash'}
 
